@@ -760,6 +760,14 @@ def sk_provider(run):
             got[a["lit"]] = val
         run.check(got == spec["static_builtins"], R, "SK|builtin-table", b.loc(), "statically known builtin functions: %s" % sorted(k for k, v in got.items() if v),
                   "the table of statically known builtin functions is %s, audited %s" % (got, spec["static_builtins"]))
+        # every other name (user functions, unknown names) is answered `not known`: `true` is only assigned on a listed name's edge
+        named = set()
+        for a in T.str_eq_arms(b):
+            named |= set(_straight(b, a["true"]))
+        loose = [b.loc(st["span"]) for bb, si, st in b.stmts() if st["k"] == "assign" and st["place"]["l"] == 0 and not st["place"]["p"]
+                 and not (st["rv"]["k"] == "use" and const_int(st["rv"]["op"]) == 0) and bb not in named]
+        run.check(not loose, R, "SK|builtin-table|default-false", b.loc(), "a function name outside the table is never statically known",
+                  "get_statically_known_builtin_fn can answer `known` for a name that is not in its table (%s): calls to user functions, whose bodies may read `$` and labels, would be frozen after the first pass" % ", ".join(loose))
     # symbols/data/instructions compute their *_statically_known flags through is_value_statically_known
     for fld, fns in spec["flag_writers"].items():
         writers = set()
